@@ -325,7 +325,7 @@ def make_harness(spec_name, spec_fn, T, need, judge_fn, prop):
         case = spec_fn(ch, Tk)
         if case is None:
             raise Skip("spec declined")
-        if T.cplx and Tk.pattern != "c" and len(case.ops) < 2:
+        if T.cplx and Tk.pattern == "cr" and len(case.ops) < 2:
             raise Skip("operand pattern is redundant for a single operand")
         opts = argnum_options(case)
         which = ch.choose("argnum", opts)
